@@ -69,15 +69,15 @@ pub fn load_configs_raw(config_files: Vec<PathBuf>, partial_emmyrcs: Option<Vec<
         let flatten_config = FlattenConfigObject::parse(first_config);
         flatten_config.to_emmyrc()
     } else {
-        let merge_config =
-            config_jsons
-                .into_iter()
-                .fold(Value::Object(Default::default()), |mut acc, item| {
-                    merge_values(&mut acc, item);
-                    acc
-                });
-        let flatten_config = FlattenConfigObject::parse(merge_config.clone());
-        flatten_config.to_emmyrc()
+        // Bring every config to the nested spelling before merging: a flat `"a.b"` in one file and a
+        // nested `{"a": {"b": ..}}` in another are the same setting, and the later file has to win.
+        config_jsons
+            .into_iter()
+            .map(|item| FlattenConfigObject::parse(item).to_emmyrc())
+            .fold(Value::Object(Default::default()), |mut acc, item| {
+                merge_values(&mut acc, item);
+                acc
+            })
     }
 }
 
